@@ -50,6 +50,8 @@ class H(Harness):
             out += compart.c05_cases(rnd, max(20, n // 5))
             out += [compart.gen_case(rnd) for _ in range(max(20, n // 5))]
             out += compart.vi_post_cases(rnd, max(20, n // 10))
+            out += compart.vi_cut_cases(rnd, max(20, n // 10))
+            out += compart.vi_sync_rerun_cases(rnd, max(20, n // 12))
             out += compart.fr_rerun_cases(rnd, max(20, n // 12))
         except ImportError:
             pass
